@@ -12,6 +12,8 @@ mod codecstream;
 mod easystream;
 mod genstream;
 mod lenstream;
+#[cfg(feature = "serde")]
+mod serdestream;
 mod util;
 
 use std::io::Write;
@@ -94,6 +96,8 @@ fn main() {
         "lie-child" => { easystream::lie_child(seed as usize, budget); return; }
         #[cfg(feature = "easy")]
         "cmpstr" => easystream::stream_cmpstr(&mut out, seed, budget),
+        #[cfg(feature = "serde")]
+        "serde" => serdestream::stream_serde(&mut out, seed, budget),
         "kat" => genstream::stream_kat(&mut out, &format!("{}/kat.txt", corpus)),
         x => {
             eprintln!("unknown stream {}", x);
